@@ -17,12 +17,23 @@ import (
 // proxy.Shutdown comes after it.  Whatever history of alias registrations the
 // update loop produced (routes with register=<alias> appearing and leaving),
 // that call returns: otherwise shutdown never begins.
-func TestC18DeregisterAllAfterAliasHistory(t *testing.T) {
+func TestC18DeregisterAllAfterAliasHistory(t *testing.T) { aliasHistory(t) }
+
+// C14: a registration detail that cannot be honoured (an alias the agent refuses to register) never
+// keeps the update loop from going on: Register, which the loop calls for every table, returns.
+func TestC14AliasRegistrationNeverBlocksUpdates(t *testing.T) { aliasHistory(t) }
+
+func aliasHistory(t *testing.T) {
 	fc := fakeconsul.New()
 	hx.Check(t, hx.Scale(30, 400), func(t *rapid.T) {
 		cfg := &config.Consul{Addr: fc.Addr(), Scheme: "http", KVPath: "/fabio/config", NoRouteHTMLPath: "/fabio/noroute.html", TagPrefix: "urlprefix-",
 			ServiceAddr: "127.0.0.1:9998", ServiceName: "fabio", CheckScheme: "http", CheckInterval: time.Second, CheckTimeout: time.Second,
 			Register: rapid.Bool().Draw(t, "registry.consul.register.enabled")}
+		refused := rapid.IntRange(0, 2).Draw(t, "agent-refuses-registrations") == 0
+		fc.SetAgentRefuses(refused)
+		if refused {
+			hx.Class("alias-history:agent-refuses-registrations")
+		}
 		be, err := consul.NewBackend(cfg)
 		if err != nil {
 			t.Fatalf("VERIF-INCONCLUSIVE backend: %v", err)
